@@ -1,5 +1,5 @@
 (* Checkers evaluated by the correspondence run (indices of failing cases). *)
-From V Require Import Common.Base C04.Parts C04.Mark.
+From V Require Import Common.Base C04.Parts C04.Mark C04.Build.
 
 Fixpoint mism_from {A} (f : A -> bool) (l : list A) (i : nat) : list nat :=
   match l with
@@ -13,19 +13,6 @@ Fixpoint forallb_i {A} (f : nat -> A -> bool) (i : nat) (l : list A) : bool :=
   | [] => true
   | x :: r => f i x && forallb_i f (S i) r
   end.
-
-(* all (source index, part index, part) triples of the JS files *)
-Fixpoint parts_from (s i : nat) (ps : list part) : list (nat * nat * part) :=
-  match ps with
-  | [] => []
-  | p :: r => (s, i, p) :: parts_from s (S i) r
-  end.
-Fixpoint files_from (s : nat) (fs : list file) : list (nat * nat * part) :=
-  match fs with
-  | [] => []
-  | f :: r => (match f_repr f with RJS => parts_from s 0 (f_parts f) | _ => [] end) ++ files_from (S s) r
-  end.
-Definition all_parts (g : graph) : list (nat * nat * part) := files_from 0 (g_files g).
 
 Definition dep_eqb (a b : nat * nat) : bool := Nat.eqb (fst a) (fst b) && Nat.eqb (snd a) (snd b).
 
@@ -106,13 +93,29 @@ Definition read_obs (l : list Z) : option ((bool * list bool) * list Z) :=
   | [] => None
   end.
 
-Definition read_case (l : list Z) : option (graph * list (bool * list bool)) :=
+(* binding := file nU user* targetFile targetSym nR (s i)*   (appended after obs, counted) *)
+Definition read_binding (l : list Z) : option (binding * list Z) :=
+  match l with
+  | f :: r0 =>
+    match read_counted read_z r0 with
+    | Some (us, tf :: tsym :: r1) =>
+      match read_counted read_pair r1 with
+      | Some (re, r2) => Some (mkBinding (zn f) (map zn us) (zn tf) (O, zn tsym) re, r2)
+      | None => None end
+    | _ => None end
+  | [] => None
+  end.
+
+Definition read_case (l : list Z) : option (graph * list (bool * list bool) * list binding) :=
   match l with
   | ts :: ign :: r0 =>
     match read_counted read_z r0 with Some (ents, r1) =>
     match read_counted read_file r1 with Some (fs, r2) =>
     match read_n read_obs (length fs) r2 with
-    | Some (obs, []) => Some (mkGraph (zb ts) (zb ign) (map zn ents) fs, obs)
+    | Some (obs, r3) =>
+      match read_counted read_binding r3 with
+      | Some (bs, []) => Some (mkGraph (zb ts) (zb ign) (map zn ents) fs, obs, bs)
+      | _ => None end
     | _ => None end
     | None => None end | None => None end
   | _ => None
@@ -123,7 +126,7 @@ Definition read_case (l : list Z) : option (graph * list (bool * list bool)) :=
 Definition graph_ok (c : list Z) : bool :=
   match read_case c with
   | None => false
-  | Some (g, obs) =>
+  | Some (g, obs, bs) =>
     match mark g (default_fuel g) with
     | None => false
     | Some L =>
@@ -132,6 +135,7 @@ Definition graph_ok (c : list Z) : bool :=
            && Nat.eqb (length (snd o)) (match get_file g s with Some f => length (f_parts f) | None => 0 end)
            && forallb_i (fun i pl => Bool.eqb (is_live L (IPart s i)) pl) 0 (snd o)) 0 obs
       && deps_cover_uses_b g
+      && bindings_ok g bs      (* re-export chains and imported declarations are among the dumped Dependencies *)
     end
   end.
 Definition check_graph := mismatches graph_ok.
